@@ -132,6 +132,7 @@ static cocls::async<void> access_co(G &gen, int style, int arg, Obs &o) {
 }
 
 static int g_next_unstable;  // the object returned by next() answered differently when asked a second time
+static int g_reread_mismatch = 0;
 template <typename G>
 static Obs access_sync(G &gen, int style, int arg) {
     constexpr bool has_arg = !G::arg_is_void;
@@ -174,6 +175,17 @@ static Obs access_sync(G &gen, int style, int arg) {
         o.kind = 4;
     } catch (...) {
         o.kind = 9;
+    }
+    if (o.kind == 3 && style == CALL_WAIT) {
+        // the call delivered the body's exception through its future; the generator itself still stands at that position:
+        // reading it directly reports the same exception, not "no value yet"
+        try {
+            (void)gen.value();
+            g_reread_mismatch++;
+        } catch (const TestError &) {
+        } catch (...) {
+            g_reread_mismatch++;
+        }
     }
     o.done = true;
     return o;
@@ -260,7 +272,16 @@ static void run_case_t(seqx::Runner &R, int with_arg, const std::vector<int> &bs
             if (style == ITER_ALL) {
                 if constexpr (G::arg_is_void) {
                     try {
-                        for (int &v : *gen) judge(Obs{1, v, true}, "range-for");
+                        if (bs.size() & 1) {
+                            // the same walk written with the postfix increment: `it++` hands out the item the iterator stood on
+                            auto it = gen->begin();
+                            auto e = gen->end();
+                            while (it != e) {
+                                auto item = it++;
+                                judge(Obs{1, item._v, true}, "iterator, postfix increment");
+                            }
+                        } else
+                            for (int &v : *gen) judge(Obs{1, v, true}, "range-for");
                         judge(Obs{2, 0, true}, "range-for end");
                     } catch (const TestError &) {
                         judge(Obs{3, 0, true}, "range-for");
@@ -273,7 +294,9 @@ static void run_case_t(seqx::Runner &R, int with_arg, const std::vector<int> &bs
             args_passed.push_back(arg);
             if (style == NEXT_VALUE || style == CALL_WAIT) {
                 g_next_unstable = 0;
+                g_reread_mismatch = 0;
                 judge(access_sync(*gen, style, arg), cs_names[style]);
+                if (g_reread_mismatch) R.fail("gen/exception-lost-on-reread", "a call delivered the body's exception; value() at that position did not report the same exception");
                 if (g_next_unstable) R.fail("gen/next-result-unstable", "the object returned by next() converted to bool twice gave two different answers (the generator was stepped again)");
             } else {
                 Obs o;
